@@ -318,6 +318,28 @@ func checkC03(c *Ctx, r *Report) {
 			r.Check(!reach, "C03.R3", "Expires unreachable once max-age>0 holds", c.InstrPos(expRet), "the max-age>0 true edge cannot reach the Expires return", "the Expires return is reachable from the max-age>0 branch")
 		}
 	}
+	// completeness of the table (the other direction): once a source has been selected by its
+	// guard, every path to a return yields that source — no extra condition may divert it to a
+	// later one (e.g. "Expires present but zero → default" would turn 'already expired' into 'fresh').
+	for _, f := range c.FuncsNamed("(*" + headersPkg + ".HeaderDirectives).GetExpiresOrDefault") {
+		type sel struct{ condSub, valSub, what string }
+		for _, sl := range []sel{{".maxAge>0", ".maxAge", "max-age"}, {"IsPresent(&$hd.Expires)", "Value(&$hd.Expires)", "Expires"}} {
+			for _, b := range f.Blocks {
+				iff, ok := b.Instrs[len(b.Instrs)-1].(*ssa.If)
+				if !ok || !strings.Contains(atomStr(iff.Cond), sl.condSub) {
+					continue
+				}
+				var bad []string
+				for _, e := range walkFrom(pos{b.Succs[0], 0}, nil, isReturn, nil) {
+					ret := e.(*ssa.Return)
+					if !strings.Contains(atomStr(ret.Results[0]), sl.valSub) {
+						bad = append(bad, c.InstrPos(ret)+" returns "+atomStr(ret.Results[0]))
+					}
+				}
+				r.Check(len(bad) == 0, "C03.R3", "once "+sl.what+" applies it is what is returned", c.InstrPos(iff), "every return reachable from the guard's true edge yields the "+sl.what+" lifetime", "after the "+sl.what+" guard holds the function can still fall through to another source: "+strings.Join(bad, "; "))
+			}
+		}
+	}
 	// the force flag and default passed by the caller are the live settings
 	for _, f := range c.FuncsNamed("(*" + proxyPkg + ".fetcher).handleUpstream200") {
 		eachCall(f, func(call ssa.CallInstruction, n string) {
